@@ -931,6 +931,12 @@ func (e *evalCtx) callExpr(x *sx) sval {
 		if len(args) > 0 && args[0].op == "str" {
 			st, ok := t.siteState[args[0].val]
 			if !ok {
+				if e.fn == t.fn && t.hasSite(args[0].val) {
+					// the site exists but has not been translated: blocks come in a topological order of
+					// the loop-cut CFG, so it is not on any path to this point and "the state at that site"
+					// denotes nothing here: an arbitrary truth value (the clause must guard its use)
+					return boolv(t.c.declare(t.c.fresh("unreached.site"), "Bool"))
+				}
 				e.fail("unknown site %q", args[0].val)
 			}
 			base = st
